@@ -130,6 +130,11 @@ def def_cases(tier):
             cases.append(("unnamed_two_params/" + kind, src, call, ("define", "ValueError")))
             src, call = member(kind, ["@icontract.snapshot(lambda self, x: len(x), name='n')", "@icontract.ensure(lambda OLD: OLD.n == 1)"])
             cases.append(("named_two_params_ok/" + kind, src, call, ("ok",)))
+        # unnamed capture with several parameters, only one of them mandatory
+        src, call = member(kind, ["@icontract.snapshot(lambda x, n=2: x[:n])", ens])
+        cases.append(("unnamed_two_params_one_defaulted/" + kind, src, call, ("define", "ValueError")))
+        src, call = member(kind, ["@icontract.snapshot(lambda x, *, n=2: x[:n])", ens])
+        cases.append(("unnamed_two_params_one_keyword_only/" + kind, src, call, ("define", "ValueError")))
         # named zero-parameter capture is fine
         src, call = member(kind, ["@icontract.snapshot(lambda: 7, name='seven')", "@icontract.ensure(lambda OLD: OLD.seven == 7)"])
         cases.append(("named_zero_params_ok/" + kind, src, call, ("ok",)))
